@@ -30,7 +30,7 @@ func c18Build(w *harness.World, n int, cache int) {
 	}
 }
 
-func c18ScriptExec(maxN int, preemptive bool) explore.Exec {
+func c18ScriptExec(maxN int, preemptive bool, allowMutate bool) explore.Exec {
 	return func(c *explore.Chooser) *explore.Outcome {
 		var w *harness.World
 		var desc string
@@ -45,7 +45,7 @@ func c18ScriptExec(maxN int, preemptive bool) explore.Exec {
 				return
 			}
 			col := w.Colls["x"]
-			mc := w.M.Cur.Colls["x"]
+			mc := w.M.Cur.Colls["x"].Clone() // the version the iterator pins (mutations come later)
 			var target []byte
 			var it gkvlite.ItemIterator
 			harness.BeginOp("Iterate")
@@ -61,17 +61,29 @@ func c18ScriptExec(maxN int, preemptive bool) explore.Exec {
 			delivered := 0
 			ended := false // Close called or Next returned false
 			extra := 0
-			for step := 0; step < n+5; step++ {
+			mutated := false
+			for step := 0; step < n+6; step++ {
+				// Next, Close, and either Mutate (the consumer is the mutating goroutine;
+				// only once the first item was delivered, i.e. the version is pinned)
+				// or, after the end, stop
 				alts := 2
-				if ended {
-					alts = 3 // Next, Close, stop
+				if ended || (allowMutate && delivered > 0 && !mutated) {
+					alts = 3
 				}
 				k := harness.Choose(alts, harness.ClassOp)
-				if step == n+2 && !ended {
+				if step >= n+2 && !ended {
 					k = 1 // the word must end: force Close
 				}
-				if k == 2 {
+				if k == 2 && ended {
 					break
+				}
+				if k == 2 {
+					// a mutation while the producer is parked inside its visit: the
+					// iterator must keep delivering the version it pinned
+					mutated = true
+					word = append(word, "Mutate")
+					w.SetItem("x", c18Keys[0], 9, bs("changed"))
+					continue
 				}
 				if k == 0 {
 					harness.BeginOp("Next")
@@ -117,6 +129,9 @@ func c18ScriptExec(maxN int, preemptive bool) explore.Exec {
 				it.Close()
 				word = append(word, "Close")
 			}
+			// statistics may be read while the abandoned producer winds down
+			harness.BeginOp("AllocStats")
+			col.AllocStats()
 			desc = fmt.Sprintf("n=%d cache=%d desc=%v withValue=%v word=%v", n, cache, descending, withValue, word)
 			w.Hist = append(w.Hist, desc)
 			// the producer exits and releases the version it pinned
@@ -126,7 +141,7 @@ func c18ScriptExec(maxN int, preemptive bool) explore.Exec {
 				if l := harness.LiveLibThreads(); l != 0 {
 					w.Fail("iterator", "producer-leak", "%d producer goroutine(s) still alive after the consumer finished with the iterator (%s)", l, desc)
 				}
-				if ri, ok := harness.Root(col); ok && (ri.Refs != 1 || ri.Chained) {
+				if ri, ok := harness.Root(w.Colls["x"]); ok && (ri.Refs != 1 || ri.Chained) {
 					w.Fail("iterator", "pin-not-released", "after the iterator ended the current version has refs=%d chained=%v (expected 1, false) (%s)", ri.Refs, ri.Chained, desc)
 				}
 			}
@@ -180,7 +195,7 @@ func c18Reentrant(maxN int) explore.Exec {
 			api := harness.Choose(len(apis), harness.ClassOp)
 			pos := harness.Choose(n, harness.ClassOp)
 			inner := harness.Choose(len(c18Inner), harness.ClassOp)
-			w = harness.NewWorld(harness.Monitors{}, 0, c18Keys, false)
+			w = harness.NewWorld(harness.Monitors{RefCount: true}, 0, c18Keys, false)
 			c18Build(w, n, cache)
 			if len(w.Viols) > 0 {
 				return
@@ -224,6 +239,9 @@ func c18Reentrant(maxN int) explore.Exec {
 			seen := 0
 			singleVisit := apis[api] != "BlockEx" && apis[api] != "Random" // those are sequences of separate visits
 			cb := func(it *gkvlite.Item) bool {
+				if !w.ItemLive(it) {
+					w.Fail("refcount", "visited-item-released", "outer %s handed the visitor an item that had been released (%s)", apis[api], desc)
+				}
 				got = append(got, string(it.Key))
 				if ri, ok := pinned.Items[string(it.Key)]; singleVisit && (!ok || it.Priority != ri.Prio || (it.Val != nil && !bytes.Equal(it.Val, ri.Val))) {
 					w.Fail("reentrant", "outer-item", "outer %s delivered (%q,%d,%q), not an item of the version pinned at its start (%s)", apis[api], it.Key, it.Priority, it.Val, desc)
@@ -287,6 +305,12 @@ func c18Reentrant(maxN int) explore.Exec {
 			if harness.Instrumented && harness.LiveLibThreads() != 0 {
 				w.Fail("iterator", "producer-leak", "producer goroutine alive at the end (%s)", desc)
 			}
+			// every version pinned during the outer call has been released
+			if cx, ok := w.Colls["x"]; ok && harness.Instrumented {
+				if ri, ok := harness.Root(cx); ok && (ri.Refs != 1 || ri.Chained) {
+					w.Fail("iterator", "pin-not-released", "after the outer call returned the current version has refs=%d chained=%v (expected 1, false) (%s)", ri.Refs, ri.Chained, desc)
+				}
+			}
 			w.ObserveAll()
 		})
 		out := &explore.Outcome{}
@@ -312,8 +336,10 @@ func c18Profiles(tier string) []Profile {
 		nS, nR, bound = 3, 4, 3
 	}
 	return []Profile{
-		{Name: "scripts", Exec: c18ScriptExec(nS, true), Budget: map[int]int{explore.ClassSched: bound}, ShardLevel: 3, FreeRun: true,
-			Rule: fmt.Sprintf("collection sizes 0..%d x {cached, flushed+re-opened} x direction x withValue x every consumer word over {Next, Close} (ending in Close or in a Next that returned false, plus up to two further calls after the end) x every interleaving of consumer and producer goroutine with at most %d preemptions (channels are modelled inside the scheduler: a blocked goroutine is visibly not enabled); afterwards the consumer mutates, runs a second iterator and reads everything. Oracles: delivered sequence = model range; Next after Close/exhaustion is false; no deadlock (no enabled thread while the consumer is unfinished); no leak (no library goroutine alive at quiescence); the pinned version is released (reference count of the current version back to 1, not chained)", nS, bound)},
+		{Name: "scripts-mutate", Exec: c18ScriptExec(nS, true, true), Budget: map[int]int{explore.ClassSched: 1}, ShardLevel: 3, FreeRun: true,
+			Rule: fmt.Sprintf("as scripts, sizes 0..%d, with one mutation (overwrite of a key) by the consumer while the producer is parked inside its visit, every interleaving with at most 1 preemption: the iterator keeps delivering the version it pinned, and when it ends that version and the chain to its successors are released (reference count of the current version back to 1, not chained); AllocStats is read while the abandoned producer winds down (lock order)", nS)},
+		{Name: "scripts", Exec: c18ScriptExec(nS, true, false), Budget: map[int]int{explore.ClassSched: bound}, ShardLevel: 3, FreeRun: true,
+			Rule: fmt.Sprintf("collection sizes 0..%d x {cached, flushed+re-opened} x direction x withValue x every consumer word over {Next, Close} (ending in Close or in a Next that returned false, plus up to two further calls after the end; then AllocStats while the producer winds down) x every interleaving of consumer and producer goroutine with at most %d preemptions (channels are modelled inside the scheduler: a blocked goroutine is visibly not enabled); afterwards the consumer mutates, runs a second iterator and reads everything. Oracles: delivered sequence = model range; Next after Close/exhaustion is false; no deadlock (no enabled thread while the consumer is unfinished); no leak (no library goroutine alive at quiescence); the pinned version is released (reference count of the current version back to 1, not chained)", nS, bound)},
 		{Name: "reentrant", Exec: c18Reentrant(nR), ShardLevel: 2,
 			Rule: fmt.Sprintf("collection sizes 1..%d x {cached, flushed+re-opened} x outer API in {Ascend, Descend, AscendEx, DescendEx, IterateAscend, IterateDescend, AscendBlockEx, Random} x every callback position x inner call in {Get, Min, GetTotals, nested visit, Snapshot+read+Close, iterator with early close, Len, Set (overwrite), Set (new key), Delete, Flush, EvictSomeItems} on the same store; re-acquiring a held lock would show as 'no enabled thread'. Oracles: no deadlock/hang/panic, inner results = model, the outer visit still delivers exactly the version pinned at its start, final contents = model", nR)},
 	}
